@@ -17,6 +17,7 @@ func init() {
 			"PV-WHOLE: no index loop deletes from the slice it walks while advancing (literal comparison with bool/filter mode)",
 			"PV-PAIR operands matched by key; CH-SIB key of the empty label set (vector(c) vs an ungrouped aggregation); PV-RESET step stamped",
 			"PV-FRESH per-step tables of the binary operation",
+			"AF-SET nested by/without; PV-ROLE reported value = strconv.FormatFloat(v, 'f', -1, 64) on every path",
 		},
 		NotDecided: []string{"floating-point results", "per-step alignment of the two sides beyond 'built with the same parameters'"},
 		Rules: func(r *Run) {
@@ -31,6 +32,8 @@ func init() {
 			ruleBinOpPairsMatched(r)
 			ruleKeySiblings(r)
 			rulePerStepGroupTables(r, []string{"binOpIterator"})
+			ruleByNesting(r) // operands match by their label sets: a label removed by an inner aggregation stays removed
+			ruleSampleValueFormat(r)
 		},
 	})
 }
